@@ -394,6 +394,59 @@ prc[b] : lin 1 =
 		src: `type F = lin 1 -* 1
 prc[a] : F = <x, y> <- recv self; wait x; print got; close y
 prc[b] : lin 1 = u : lin 1 <- new (close self); u : lin 1 <- new (send a<u, self>); wait u; print fin; close self`},
+	{name: "m27", contraction: true,
+		prints: []string{"once", "p", "q"},
+		before: [][2]string{{"once", "p"}, {"p", "q"}},
+		src: `prc[x] : rep 1 = print once; close self
+prc[f] : rep 1 = fwd self x
+prc[b] : lin 1 = <u, v> <- split f; wait u; print p; wait v; print q; close self`},
+	{name: "m28", contraction: true,
+		prints: []string{"served", "served", "fin"},
+		before: [][2]string{},
+		src: `type F = rep 1 -* 1
+let mk() : rep 1 = close self
+prc[a] : F = <p, q> <- recv self; wait p; print served; close q
+prc[f] : F = fwd self a
+prc[b] : lin 1 = <c, d> <- split f; u <- new mk(); v <- new mk(); r1 : rep 1 <- new (send c<u, self>); r2 : rep 1 <- new (send d<v, self>); wait r1; wait r2; print fin; close self`},
+	{name: "m29", contraction: true,
+		prints: []string{"once", "fin"},
+		before: [][2]string{{"once", "fin"}},
+		src: `prc[x] : rep 1 = print once; close self
+prc[b] : lin 1 = <u, v> <- split x; <p, q> <- split u; wait p; wait q; wait v; print fin; close self`},
+	{name: "m30", contraction: true,
+		prints: []string{"once", "fin"},
+		before: [][2]string{{"once", "fin"}},
+		src: `prc[x] : rep 1 = print once; close self
+prc[b] : lin 1 = <u, v> <- split x; drop u; wait v; print fin; close self`},
+	{name: "m31", contraction: true,
+		prints: []string{"served", "served", "fin"},
+		before: [][2]string{},
+		src: `type F = rep 1 -* 1
+let mk() : rep 1 = close self
+prc[a, b] : F = <x, y> <- recv self; wait x; print served; close y
+prc[c] : lin 1 = u <- new mk(); v <- new mk(); r1 : rep 1 <- new (send a<u, self>); r2 : rep 1 <- new (send b<v, self>); wait r1; wait r2; print fin; close self`},
+	{name: "m32", contraction: false,
+		prints: []string{"sel", "right"},
+		before: [][2]string{{"sel", "right"}},
+		src: `type C = lin +{l : 1, r : 1}
+prc[a] : C = t : lin 1 <- new (close self); print sel; self.r<t>
+prc[f] : C = fwd self a
+prc[g] : C = fwd self f
+prc[b] : lin 1 = case g (l<z> => print left; wait z; close self | r<z> => print right; wait z; close self)`},
+	{name: "m33", contraction: false,
+		prints: []string{"left", "done"},
+		before: [][2]string{{"left", "done"}},
+		src: `type B = lin &{l : 1, r : 1}
+prc[a] : B = case self (l<z> => print left; close z | r<z> => print right; close z)
+prc[f] : B = fwd self a
+prc[b] : lin 1 = x : lin 1 <- new (f.l<self>); wait x; print done; close self`},
+	{name: "m34", contraction: false,
+		prints: []string{"up", "fin"},
+		before: [][2]string{{"up", "fin"}},
+		src: `type U = lin /\ rep 1
+prc[a] : U = s <- shift self; print up; close s
+prc[f] : U = fwd self a
+prc[b] : lin 1 = l : lin 1 <- new cast f<self>; wait l; print fin; close self`},
 }
 
 func orderRespected(prints []string, before [][2]string) bool {
@@ -500,6 +553,24 @@ prc[b] : lin 1 = wait a; wait a; close self`},
 	{"x7", "a label is sent to a process that expects a pair", `type F = lin 1 -* 1
 prc[a] : F = <x, y> <- recv self; wait x; close y
 prc[b] : lin 1 = u : lin 1 <- new close self; r : lin 1 <- new (a.l<self>); wait r; drop u; close self`},
+	{"y2", "C05: a linear channel is dropped", `prc[a] : lin 1 = close self
+prc[b] : lin 1 = drop a; close self`},
+	{"y3", "C05: a linear channel is split", `prc[a] : lin 1 = close self
+prc[b] : lin 1 = <u, v> <- split a; wait u; wait v; close self`},
+	{"y4", "C05: an affine channel is split", `prc[a] : aff 1 = close self
+prc[b] : lin 1 = <u, v> <- split a; wait u; wait v; close self`},
+	{"y5", "C05: a multicast channel is dropped", `prc[a] : mul 1 = close self
+prc[b] : lin 1 = drop a; close self`},
+	{"y8", "C05: a linear parameter is left unused", `let f(x : lin 1, y : lin 1) : lin 1 = wait x; close self
+prc[a] : lin 1 = close self
+prc[c] : lin 1 = close self
+prc[b] : lin 1 = z <- new f(a, c); wait z; close self`},
+	{"y6", "C06: a replicable provider depends on a linear channel", `let f(x : lin 1) : rep 1 = wait x; close self
+prc[a] : lin 1 = close self
+prc[b] : lin 1 = y <- new f(a); wait y; close self`},
+	{"y7", "C06: an up-shift from affine to linear", `type U = aff /\ lin 1
+prc[a] : U = s <- shift self; close s
+prc[b] : lin 1 = l : aff 1 <- new cast a<self>; wait l; close self`},
 }
 
 // ZZRunIllTyped: every program of illTypedMenu is rejected; if one is accepted it is run (in the
@@ -544,6 +615,13 @@ func ZZMenuVerdicts() {
 		}
 	} else {
 		vn.Assert("C07.ill-typed-program-is-rejected", err != nil)
+		what := illTypedMenu[k-len(runMenu)].what
+		if strings.HasPrefix(what, "C05") {
+			vn.Assert("C05.substructural-violation-is-rejected", err != nil)
+		}
+		if strings.HasPrefix(what, "C06") {
+			vn.Assert("C06.mode-violation-is-rejected", err != nil)
+		}
 	}
 	vn.Assert("C09.typechecker-answers-on-real-programs", true)
 	vn.Observe("accepted", err == nil)
